@@ -2,6 +2,7 @@
    line is played on the concurrent loader machine of Model/ParLoad.lean with the reviewed step order, and the
    model search over the REGENERATED step order is run on request. -/
 import Csvq.Model.ParLoad
+import Csvq.Model.SessionStmt
 namespace Csvq.Drive
 open Csvq.ParLoad
 
@@ -51,8 +52,24 @@ def searchReport (n : Nat) (steps : List String) : String :=
       let rs := (List.range n).map fun i => s!"w{i}:{if (s.w i).result.isSome then verName (s.w i).result else "-"}"
       s!"violating-interleaving: {" ".intercalate path} => file read {s.readLog.length} time(s), handed to the statement {" ".intercalate rs} (program {progName prog})"
 
+/-- plain SELECT of table 0, another process commits to it, the non-data statements of the line, second SELECT -/
+def playNonData (kinds : List Csvq.Session.NonData) (reads : List Csvq.Session.Path) : String :=
+  let s0 : Csvq.Session.StateS Nat := { tx := Csvq.Session.fresh (fun _ => some 0), env := default }
+  let (s1, o1) := Csvq.Session.stepS s0 (.data (.select 0))
+  let s2 := (Csvq.Session.stepS s1 (.data (.other 0 1))).1
+  let s3 := kinds.foldl (fun s k => (Csvq.Session.stepS s (.nonData k reads)).1) s2
+  let o2 := (Csvq.Session.stepS s3 (.data (.select 0))).2
+  let sh : Csvq.Session.Out Nat → String
+    | .rows c => verName (some c)
+    | _ => "<error>"
+  s!"first={sh o1} second={sh o2}"
+
 def c20 (cmd : String) (args : List String) : String :=
   match cmd, args with
+  | "nondata", [_label, kinds, reads] =>
+    let ks := (kinds.splitOn ",").map fun n => Csvq.Session.NonData.all.find? fun k => k.caseName == n
+    if ks.any Option.isNone then "bad-op: a statement kind that is not a non-data kind of the model"
+    else playNonData (ks.filterMap id) (if reads == "1" then [0] else [])
   | "parload", [_form, _spelling, cpu, outer, commitAt, _pre] =>
     match cpu.toNat?, outer.toNat?, commitAt.toNat? with
     | some cpu, some outer, some c =>
